@@ -34,6 +34,11 @@
 (*     requestBody by $ref; path-level parameters + summary + description  *)
 (*     + servers next to the methods; x- extensions + deprecated +         *)
 (*     externalDocs; operation-level servers / security / empty lists      *)
+(*  L  LONG names (64 .. 160 characters; thorough every 8 from 48 to 168)   *)
+(*     for what ends up in signatures: return-type / body models, a        *)
+(*     parameter name, the operationId + inline response schema (promoted  *)
+(*     to <OperationId>200Response) x kinds plain, multi, sse, ndjson,     *)
+(*     longsig (thorough also manyopt, mixed); operation 2 = short control *)
 (* kinds also: mixed = 200 JSON + 206 application/octet-stream (the        *)
 (* primary response is not streaming: client, Protocol and mock are        *)
 (* coroutines); every `multi` operation has its OWN json body model.       *)
@@ -199,9 +204,25 @@ DocX2(u) ==
   Decorate(MkDoc("z" \o S(d1) \o "x" \o S(d2) \o "x" \o S(t), IF (d1 + d2) % 2 = 1 THEN 1 ELSE 3, <<t, t, t>>, <<1, 1, 1>>, Rot(d1 + t, 2), Rot(d1 + d2 + t, 3), Rend(d1 + d2 + t)),
            {2}, <<Decos[d1], Decos[d2]>>)
 
+\* LENGTH is a dimension: names around the widths the writers know (72 / 88 / 100 / 120 / 160 once nested) for what ends
+\* up in signatures.  what = 1: the models of the return type / request body (decoration long_model_<L>), 2: a parameter
+\* name (long_param_<L>), 3: the operationId itself + an inline response schema, which the loader promotes to
+\* <OperationId>200Response (decoration inline_response).  Operation 1 is long, operation 2 the short control, same tag.
+Chunk == "Telemetr"
+RECURSIVE Rep(_)
+Rep(n) == IF n = 0 THEN "" ELSE Chunk \o Rep(n - 1)
+Pads == <<"", "x", "xy", "xyz", "xyzw", "xyzwv", "xyzwvu", "xyzwvut">>
+LongId(L) == "list" \o Rep((L - 4) \div 8) \o Pads[((L - 4) % 8) + 1]
+IdxL(lens, kinds) == {I("l", <<L, k, w>>) : L \in lens, k \in kinds, w \in 1..3}
+DocL(u) ==
+  LET L == u[1]  k == u[2]  w == u[3]
+      base == MkDoc("l" \o S(L) \o "x" \o S(k) \o "x" \o S(w), 3, <<2, 2>>, <<k, k>>, 2, Rot(L \div 8 + k + w, 3), Rend(L \div 8 + k + w))
+      deco == CASE w = 1 -> <<"long_model_" \o S(L)>> [] w = 2 -> <<"long_param_" \o S(L)>> [] w = 3 -> <<"inline_response">> IN
+  [base EXCEPT !.ops[1].decos = deco, !.ops[1].opid = IF w = 3 THEN LongId(L) ELSE @]
+
 Plain(i) ==
   CASE i.f = "a" -> DocA(i.x) [] i.f = "b" -> DocB(i.x) [] i.f = "c" -> DocC(i.x) [] i.f = "d" -> DocD(i.x)
-    [] i.f = "e" -> DocE(i.x) [] i.f = "f" -> DocF2(i.x) [] i.f = "g" -> DocF3(i.x) [] i.f = "h" -> DocH(i.x) [] i.f = "p" -> DocP(i.x) [] i.f = "v" -> DocV(i.x) [] i.f = "x" -> DocX(i.x) [] i.f = "z" -> DocX2(i.x)
+    [] i.f = "e" -> DocE(i.x) [] i.f = "f" -> DocF2(i.x) [] i.f = "g" -> DocF3(i.x) [] i.f = "h" -> DocH(i.x) [] i.f = "p" -> DocP(i.x) [] i.f = "v" -> DocV(i.x) [] i.f = "x" -> DocX(i.x) [] i.f = "z" -> DocX2(i.x) [] i.f = "l" -> DocL(i.x)
 Doc(i) == IF i.bare THEN [Plain(i) EXCEPT !.rendering = "yamlbare", !.id = "y" \o @] ELSE Plain(i)
 
 \* yamlbare: a slice of A and B rendered with unquoted status keys
@@ -210,8 +231,8 @@ IdxG(full) ==
   \cup {[i EXCEPT !.bare = TRUE] : i \in {i \in IdxB(1) : i.x[1] # i.x[2] /\ (i.x[1] + 3 * i.x[2]) % (IF full THEN 3 ELSE 16) = 0}}
 
 Family ==
-  CASE Tier = "quick"    -> IdxA(FALSE) \cup IdxB(1) \cup IdxC(32, 1) \cup IdxD(2, 1) \cup IdxE({1}) \cup IdxF2({1, 3}) \cup IdxG(FALSE) \cup IdxH({3}, {1}) \cup IdxP(4) \cup IdxV({1, 2, 4}, {1, 2, 5}) \cup IdxX({1, 2}, {0})
-    [] Tier = "thorough" -> IdxA(TRUE) \cup IdxB(6) \cup IdxC(2, 4) \cup IdxD(1, 12) \cup IdxE(1..NS) \cup IdxF2(1..NS) \cup IdxF3 \cup IdxG(TRUE) \cup IdxH({3, 4}, {1, 2}) \cup IdxP(1) \cup IdxV({1, 2, 4, 6, 12, 16, 17}, {1, 2, 5, 6}) \cup IdxX({1, 2}, {1, 2, 3}) \cup IdxX2
+  CASE Tier = "quick"    -> IdxA(FALSE) \cup IdxB(1) \cup IdxC(32, 1) \cup IdxD(2, 1) \cup IdxE({1}) \cup IdxF2({1, 3}) \cup IdxG(FALSE) \cup IdxH({3}, {1}) \cup IdxP(4) \cup IdxV({1, 2, 4}, {1, 2, 5}) \cup IdxX({1, 2}, {0}) \cup IdxL({64, 80, 96, 112, 128, 160}, {1, 2, 3, 4, 7})
+    [] Tier = "thorough" -> IdxA(TRUE) \cup IdxB(6) \cup IdxC(2, 4) \cup IdxD(1, 12) \cup IdxE(1..NS) \cup IdxF2(1..NS) \cup IdxF3 \cup IdxG(TRUE) \cup IdxH({3, 4}, {1, 2}) \cup IdxP(1) \cup IdxV({1, 2, 4, 6, 12, 16, 17}, {1, 2, 5, 6}) \cup IdxX({1, 2}, {1, 2, 3}) \cup IdxX2 \cup IdxL({L \in 48..168 : L % 8 = 0}, {1, 2, 3, 4, 6, 7, 8})
 
 Init == sc \in Family /\ done = FALSE
 Emit == ~done /\ done' = TRUE /\ UNCHANGED sc /\ PrintT("SCEN " \o ToJson(Doc(sc)))
